@@ -220,8 +220,8 @@ impl Prop for C13 {
 
     fn budget(tier: Tier) -> Budget {
         match tier {
-            Tier::Quick => Budget { cases: 1200, shards: 16 },
-            Tier::Thorough => Budget { cases: 60_000, shards: 16 },
+            Tier::Quick => Budget { cases: 9600, shards: 16 },
+            Tier::Thorough => Budget { cases: 76800, shards: 16 },
         }
     }
 
